@@ -556,3 +556,30 @@ func Verif_C16_E10_ReplacementWithOwnHandler() {
 	vnd.Cover("recovered")
 	vnd.ObserveBytes("e10", got)
 }
+
+// Verif_C16_E11_ClonedReplacement: as E1, but every stream replacement the handler
+// supplies is one half of a stream clone (what a replicating backend hands out): it,
+// too, must be opened at the offset already delivered.
+func Verif_C16_E11_ClonedReplacement() {
+	ref, h, b := verifC16Setup(verifC16StreamKinds, verifC16Rich, verifC16Options(), false)
+	h.cloneReplacements = true
+	r := b.ToReader()
+	var got []byte
+	var err error
+	for i := 0; i < 2*(ref.n+2)+4; i++ {
+		p := make([]byte, 1)
+		var n int
+		n, err = r.Read(p)
+		got = append(got, p[:n]...)
+		if err != nil {
+			break
+		}
+	}
+	vnd.Assert(err != nil, "reader neither finished nor failed within the unwinding bound")
+	r.Close()
+	if err == io.EOF {
+		err = nil
+	}
+	verifC16CheckStreamed(ref, h, 0, got, err)
+	vnd.ObserveBytes("read", got)
+}
